@@ -172,6 +172,8 @@ impl OperationControl for Sequence {
         matcher: &'a ReMatcher<'a>,
         position: usize,
     ) -> Box<dyn Iterator<Item = usize> + 'a> {
+        #[cfg(regexml_verif)]
+        crate::verif::tick();
         Box::new(SequenceIterator::new(
             matcher,
             &self.operations,
@@ -225,10 +227,16 @@ impl Iterator for SequenceIterator<'_> {
     // backwards getting the next match for each term in the sequence until we
     // find a route through.
     fn next(&mut self) -> Option<Self::Item> {
+        #[cfg(regexml_verif)]
+        crate::verif::tick();
         let mut counter = 0;
         // as long as there are iterators on the stack
         while !self.iterators.is_empty() {
+            #[cfg(regexml_verif)]
+            crate::verif::tick();
             loop {
+                #[cfg(regexml_verif)]
+                crate::verif::tick();
                 // take the top of the stack
                 let top = self.iterators.last_mut().unwrap();
                 // take the next item from the top iterator
